@@ -65,6 +65,18 @@ func implC19(line string) string {
 		return implTrace(limit, unhx(f[2]), unhx(strings.SplitN(f[3], "/", 2)[0]))
 	case "emsg":
 		return implEmsg(f[1:])
+	case "uthrow":
+		return implUThrow(f[1], f[2], f[3])
+	case "fspos":
+		idx, _ := strconv.Atoi(f[3])
+		fs := &file.FileSet{}
+		fs.AddFile("a.js", unhx(f[1]))
+		fs.AddFile("b.js", unhx(f[2]))
+		p := fs.Position(file.Idx(idx))
+		if p == nil {
+			return "nil"
+		}
+		return fmt.Sprintf("%d:%d", p.Line, p.Column)
 	case "etostr":
 		this := map[string]string{"undef": "undefined", "null": "null", "num": "1", "str": "\"s\"", "bool": "true", "obj": "{}",
 			"objn": "{name: \"N\"}", "objm": "{message: \"M\"}", "objnm": "{name: \"N\", message: \"M\"}", "obje": "{name: \"\", message: \"M\"}"}[f[1]]
@@ -305,6 +317,81 @@ func implEmsg(f []string) string {
 	}
 	return "run=" + sTok(rerr.Error()) + "|mt=" + mt + "|m=" + m + "|om=" + b("e9.hasOwnProperty('message')") + "|on=" + b("e9.hasOwnProperty('name')") +
 		"|s=" + sTok(get("String(e9)")) + "|h=" + sTok(head) + "|nt=" + nt
+}
+
+// implUThrow: throw V uncaught through one user of catchPanic (or from inside a built-in callback / through finally)
+// and report what Go gets back: nil, S:<text> (plain error) or E:<text> (*otto.Error).  f = via, kind, "<texttok>@<hex of the JS expression for V>".
+func implUThrow(via, kind, txt string) string {
+	i := strings.Index(txt, "@")
+	expr := unhx(txt[i+1:])
+	vm := otto.New()
+	if _, err := vm.Run("var V = " + expr + "; function thr(){ throw V; }; var host = {get g(){ throw V; }, set s(x){ throw V; }, m: thr, toString: thr, valueOf: thr, toJSON: thr};" +
+		" var holder = {get x(){ throw V; }};"); err != nil {
+		return "setup-error:" + hx(err.Error())
+	}
+	// what a JS catch sees: the very same value
+	if v, err := vm.Run("var same9 = false; try { thr(); } catch (e) { same9 = (e === V) || (e !== e && V !== V); } same9"); err != nil || v.String() != "true" {
+		return "js-catch-sees-another-value"
+	}
+	var err error
+	hostV, _ := vm.Get("host")
+	thrV, _ := vm.Get("thr")
+	switch via {
+	case "run":
+		_, err = vm.Run("thr()")
+	case "runthrow":
+		_, err = vm.Run("throw V")
+	case "eval":
+		_, err = vm.Eval("thr()")
+	case "ocall":
+		_, err = vm.Call("thr", nil)
+	case "onew":
+		_, err = vm.Call("new thr", nil)
+	case "vcall":
+		_, err = thrV.Call(otto.NullValue())
+	case "objcall":
+		_, err = hostV.Object().Call("m")
+	case "objget":
+		_, err = hostV.Object().Get("g")
+	case "objset":
+		err = hostV.Object().Set("s", 1)
+	case "tostring":
+		_, err = hostV.ToString()
+	case "tofloat":
+		_, err = hostV.ToFloat()
+	case "tointeger":
+		_, err = hostV.ToInteger()
+	case "marshal":
+		_, err = hostV.Object().MarshalJSON()
+	case "export":
+		h, _ := vm.Get("holder")
+		_, err = h.Export()
+	case "sort":
+		_, err = vm.Run("[2, 1].sort(thr)")
+	case "replace":
+		_, err = vm.Run("'a'.replace(/a/, thr)")
+	case "tojson":
+		_, err = vm.Run("JSON.stringify(host)")
+	case "getter":
+		_, err = vm.Run("host.g")
+	case "foreach":
+		_, err = vm.Run("[1].forEach(thr)")
+	case "finally":
+		_, err = vm.Run("var fin9 = 0; try { thr(); } finally { fin9 = 1; }")
+	case "nestedfinally":
+		_, err = vm.Run("(function(){ try { try { thr(); } finally { nop9 = 1; } } finally { nop9 = 2; } })()")
+	case "rethrow":
+		_, err = vm.Run("try { thr(); } catch (e) { throw e; }")
+	default:
+		return "bad-op"
+	}
+	if err == nil {
+		return "nil"
+	}
+	if oe, ok := err.(*otto.Error); ok {
+		return "E:" + sTok(oe.Error())
+	}
+	return "S:" + sTok(err.Error())
 }
 
 // implCLimit: trace limit tl ("d" = leave the default), stack-depth limit sl (0 = leave unset) configured on a fresh
